@@ -70,6 +70,18 @@ def gen_cases(ctx):
                     "subgrid": ti.random_subgrid(rng, jmax, imax), "adv": rng.choice(["EF", "RK2", "RK4"]),
                     "D": rng.choice([0.0, 50.0, 500.0]), "steps": rng.randint(3, 15), "n": rng.randint(5, 40),
                     "seed": rng.randrange(10**6), "speed": rng.choice([0.5, 2.0, 6.0])})
+    # "appears in no later record / never reappears in the output": death-and-release histories written by the
+    # real Output module in both layouts, read back (driver and oracle of C06: a value iff alive at that record)
+    import c06
+
+    k = 0
+    for dd in c06.gen_cases(ctx):
+        if dd.get("k") == "hist" and any(op[0] in ("kill", "killall") for ops in dd["hist"] for op in ops):
+            dd["layout"] = ["dense", "dense", "sparse"][k % 3]
+            out.append({"k": "records", "c06": dd})
+            k += 1
+            if k >= (12 if ctx.quick else 120):
+                break
     return out
 
 
@@ -84,6 +96,13 @@ def in_valid(x, y, lim):
 
 
 def eval_case(desc, ctx):
+    if desc["k"] == "records":
+        import c06
+
+        r = c06.eval_case(desc["c06"], ctx)
+        return {"ints": None, "oracle": ("output records: " + r["oracle"]) if r["oracle"] else None,
+                "nontrivial": ("records",) + tuple(r["nontrivial"]) if r.get("nontrivial") else None,
+                "kind": "records-" + r["kind"], "observed": r.get("observed")}
     M = np.array([[int(c) for c in row] for row in desc["mask"]])
     imax, jmax, sub = desc["imax"], desc["jmax"], desc["subgrid"]
     lim = valid_region(sub, imax, jmax)
